@@ -114,6 +114,18 @@ class Shim:
     def min(self, a, axis=None, **kw):
         return self._fold(a, axis, "lt", _np.min)
 
+    def divide(self, a, b, out=None, where=True, **kw):
+        """numpy.divide on object arrays (exact rationals, M2), honouring out= / where="""
+        a_, b_ = _np.broadcast_arrays(_np.asarray(a, dtype=object), _np.asarray(b, dtype=object))
+        w_ = _np.broadcast_to(_np.asarray(where), a_.shape)
+        res = _np.empty(a_.shape, dtype=object)
+        for idx in _np.ndindex(*a_.shape):
+            if w_[idx]:
+                res[idx] = a_[idx] / b_[idx]
+            else:
+                res[idx] = out[idx] if out is not None else 0.0
+        return res
+
     def abs(self, a):
         return _np.frompyfunc(abs, 1, 1)(a) if getattr(a, "dtype", None) == object else _np.abs(a)
 
